@@ -90,6 +90,11 @@ def handle (l : Line) : Option Verdict :=
               (("child_exit_0", rc == 0) ::
                ("same_as_alone", dgs.length == want && allEq dgs rdg && sts.all (· == rst)) :: c.2)
     | _, _, _, _, _, _, _, _, _, _, _ => .bad "par_cold args"
+  | "parnull" => some <|
+    -- nullable columns: multi-threaded digest (values, row counts, null bitmaps) must equal the single-threaded one
+    match l.outStr "dg", l.outStr "ref", l.outInt "st" with
+    | some d, some r, some st => verdict [] [("same_as_single_threaded", d == r && st == 63)]
+    | _, _, _ => .bad "parnull args"
   | _ => none
 
 end Driver.Ops.Par
